@@ -110,16 +110,29 @@ where
     F: FnMut(usize, Record, &[usize]) -> bool + Send,
 {
     let n = specs.len();
-    let next = AtomicUsize::new(0);
     let stop = AtomicBool::new(false);
     let hit_deadline = AtomicBool::new(false);
-    let sink = Mutex::new(sink);
+    // Determinism of the search itself: (i) chunks are assigned to workers
+    // round-robin, not first-come-first-served, so which runs share a worker
+    // process - the hidden input of a library that kept process-wide state -
+    // is a function of the plan and the worker count, not of timing; (ii)
+    // records are handed to the sink in plan order (reorder buffer), so the
+    // first violation reported is the same in every execution.
+    struct Reorder<F> {
+        next_pos: usize,
+        pending: std::collections::BTreeMap<usize, (Record, usize, usize, usize)>,
+        sink: F,
+    }
+    let sink = Mutex::new(Reorder { next_pos: 0, pending: std::collections::BTreeMap::new(), sink });
     let issued = AtomicUsize::new(0);
     let completed = AtomicUsize::new(0);
     let deaths = AtomicUsize::new(0);
     let timeouts = AtomicUsize::new(0);
     let t0 = Instant::now();
     let workers = cfg.workers.max(1).min(n.max(1));
+    // positions each worker slot has executed (never cleared; a record's
+    // history is the slice [base..len] belonging to its process)
+    let hists: Vec<Mutex<Vec<usize>>> = (0..workers).map(|_| Mutex::new(vec![])).collect();
     // per worker: (busy since ms+1 or 0, child handle) for the watchdog
     let busy: Vec<AtomicU64> = (0..workers).map(|_| AtomicU64::new(0)).collect();
     let killed: Vec<AtomicBool> = (0..workers).map(|_| AtomicBool::new(false)).collect();
@@ -174,7 +187,7 @@ where
         });
         let mut handles = vec![];
         for w in 0..workers {
-            let (next, stop, sink, busy, killed, children, pids, wall_start) = (&next, &stop, &sink, &busy, &killed, &children, &pids, &wall_start);
+            let (stop, sink, busy, killed, children, pids, wall_start, hists) = (&stop, &sink, &busy, &killed, &children, &pids, &wall_start, &hists);
             let (issued, completed, deaths, timeouts) = (&issued, &completed, &deaths, &timeouts);
             handles.push(scope.spawn(move || {
                 let mut worker = spawn_worker(cfg.thorough);
@@ -182,13 +195,15 @@ where
                 let mut pid = worker.child.lock().unwrap().id();
                 pids[w].store(pid as u64, Ordering::SeqCst);
                 let cpu_now = |pid: u32| child_cpu_ms(pid).unwrap_or(0) + 1;
-                // positions this worker process has executed since it was spawned
-                let mut hist: Vec<usize> = vec![];
+                // hists[w][hist_base..] = positions the current worker process has executed
+                let mut hist_base: usize = 0;
+                let mut round: usize = 0;
                 'outer: loop {
                     if stop.load(Ordering::SeqCst) {
                         break;
                     }
-                    let start = next.fetch_add(cfg.chunk, Ordering::SeqCst);
+                    let start = (round * workers + w) * cfg.chunk;
+                    round += 1;
                     if start >= n {
                         break;
                     }
@@ -225,6 +240,7 @@ where
                         };
                         busy[w].store(0, Ordering::SeqCst);
                         wall_start[w].store(0, Ordering::SeqCst);
+                        let mut respawned = false;
                         let rec = if got == 0 {
                             // worker died while executing this spec
                             let was_killed = killed[w].swap(false, Ordering::SeqCst);
@@ -240,7 +256,7 @@ where
                             *children[w].lock().unwrap() = Some(worker.child.clone());
                             pid = worker.child.lock().unwrap().id();
                             pids[w].store(pid as u64, Ordering::SeqCst);
-                            hist.clear();
+                            respawned = true;
                             if in_run_phase {
                                 Record {
                                     idx: spec.idx,
@@ -275,8 +291,29 @@ where
                             }
                         };
                         completed.fetch_add(1, Ordering::SeqCst);
-                        let go_on = (sink.lock().unwrap())(pos, rec, &hist);
-                        hist.push(pos);
+                        let len = hists[w].lock().unwrap().len();
+                        let mut go_on = true;
+                        {
+                            let mut ro = sink.lock().unwrap();
+                            ro.pending.insert(pos, (rec, w, hist_base, len));
+                            loop {
+                                let np = ro.next_pos;
+                                let (r2, w2, b2, l2) = match ro.pending.remove(&np) {
+                                    Some(e) => e,
+                                    None => break,
+                                };
+                                ro.next_pos += 1;
+                                let guard = hists[w2].lock().unwrap();
+                                if !(ro.sink)(np, r2, &guard[b2..l2]) {
+                                    go_on = false;
+                                }
+                            }
+                        }
+                        hists[w].lock().unwrap().push(pos);
+                        if respawned {
+                            // the run that died belongs to the old process; what follows runs in the new one
+                            hist_base = len + 1;
+                        }
                         if cfg.fresh_per_spec {
                             let old = std::mem::replace(&mut worker, spawn_worker(cfg.thorough));
                             let Worker { child, stdin, stdout } = old;
@@ -286,7 +323,7 @@ where
                             *children[w].lock().unwrap() = Some(worker.child.clone());
                             pid = worker.child.lock().unwrap().id();
                             pids[w].store(pid as u64, Ordering::SeqCst);
-                            hist.clear();
+                            hist_base = len + 1;
                         }
                         if !go_on {
                             stop.store(true, Ordering::SeqCst);
